@@ -283,23 +283,41 @@ def dispatch(R, P):
             continue
         terms = {}
         okshape = True
+
+        def byte_offsets(n_):
+            """offsets k of the source bytes read below n_: *(source + k), *source, source[k]"""
+            out = []
+            for y in g.walk(n_, follow_refs=True):
+                if y["k"] == "index" and g.is_const(y["a"][1]) is not None:
+                    out.append(g.is_const(y["a"][1]))
+                elif y["k"] == "un" and y["op"] == "deref":
+                    z = g.d(y["a"][0])
+                    while z is not None and z["k"] == "cast":
+                        z = g.d(z["a"][0])
+                    if z is not None and z["k"] == "bin" and z["op"] == "+" and g.is_const(z["a"][1]) is not None:
+                        out.append(g.is_const(z["a"][1]))
+                    elif z is not None and z["k"] == "var":
+                        out.append(0)
+            return out
         for r_ in g.returns():
+            shifted = set()
             for x in g.walk(r_.node, follow_refs=True):
                 if x["k"] == "bin" and x["op"] == "<<":
                     sh = g.is_const(x["a"][1])
-                    offs = [g.is_const(y["a"][1]) for y in g.walk(x["a"][0], follow_refs=True) if y["k"] == "bin" and y["op"] == "+" and g.is_const(y["a"][1]) is not None]
+                    offs = byte_offsets(x["a"][0])
                     if sh is None or len(offs) != 1:
                         okshape = False
                     else:
                         terms[offs[0]] = sh
+                        shifted.add(offs[0])
+                elif x["k"] == "bin" and x["op"] not in ("+", "|", "<<"):
+                    okshape = False  # the bytes are combined by + or | only (the shifted ranges are disjoint)
             # the unshifted last byte
-            for x in g.walk(r_.node, follow_refs=True):
-                if x["k"] == "un" and x["op"] == "deref":
-                    y = g.d(x["a"][0])
-                    while y is not None and y["k"] == "cast":
-                        y = g.d(y["a"][0])
-                    if y is not None and y["k"] == "bin" and y["op"] == "+" and g.is_const(y["a"][1]) is not None and g.is_const(y["a"][1]) not in terms:
-                        terms[g.is_const(y["a"][1])] = 0
+            for k_ in byte_offsets(r_.node):
+                if k_ not in shifted:
+                    if k_ in terms and terms[k_] != 0:
+                        okshape = False
+                    terms[k_] = 0
         want = {k: 8 * (w - 1 - k) for k in range(w)}
         R.check(okshape and terms == want, "STREAM", "loader:%s:big-endian" % name, "%s in %s()" % (LOADERS, name), "byte k is shifted by 8*(%d-k): network byte order, every byte once" % (w - 1),
                 "%s assembles its bytes as {offset: shift} = %s, big-endian is %s: multi-byte arguments (lengths, integers, the bits of doubles) decode to other values than were encoded" % (name, dict(sorted(terms.items())), want))
